@@ -287,7 +287,7 @@ class State(object):
                 h = z3.Const('H%d_%s' % (self.fresh_epoch, key), sort)
                 r = z3.Int('r!fr')
                 self.pc.append(z3.ForAll([r], z3.Implies(r < self.fn_alloc0, z3.Select(h, r) == z3.Select(h0, r)),
-                                         patterns=[z3.Select(h, r)]))
+                                         patterns=[z3.Select(h, r), z3.Select(h0, r)]))
                 self.heap[key] = h
                 self._len_nonneg(key, h)
         return self.heap[key]
@@ -300,8 +300,11 @@ class State(object):
         for key in list(self.heap.keys()):
             old = self.heap[key]
             h = z3.Const('H%d_%s' % (self.fresh_epoch, key), old.sort())
+            # both directions: a term over the old heap (e.g. from an instantiated precondition) must reach
+            # the new one too, else e-matching never connects them
+            pats = [z3.Select(h, r)] + ([z3.Select(old, r)] if z3.is_const(old) else [])
             self.pc.append(z3.ForAll([r], z3.Implies(r < self.fn_alloc0, z3.Select(h, r) == z3.Select(old, r)),
-                                     patterns=[z3.Select(h, r)]))
+                                     patterns=pats))
             self.heap[key] = h
             self._len_nonneg(key, h)
 
